@@ -419,7 +419,18 @@ nfa, with no epsilon transition
 
         """
         from pyformlang.regular_expression import Regex
-        enfas = [self.copy() for _ in self._final_states]
+        base = self
+        if len(self._start_state) > 1:
+            # Only one start state is supported: we add one before the others
+            base = EpsilonNFA.copy(self)
+            new_start = State("#STARTREGEX#")
+            while new_start in base.states:
+                new_start = State(str(new_start.value) + "0")
+            for start in self._start_state:
+                base.remove_start_state(start)
+                base.add_transition(new_start, Epsilon(), start)
+            base.add_start_state(new_start)
+        enfas = [base.copy() for _ in self._final_states]
         final_states = list(self._final_states)
         for i in range(len(self._final_states)):
             for j in range(len(self._final_states)):
